@@ -204,10 +204,10 @@ pub fn run(ctx: &Ctx) {
     }
     {
         let (pool, data) = (&pool, &data);
-        ctx.strided("paths_len4_slice", b * n.pow(4), ctx.pick(61, 5), move |i| paths_nth(i, pool, data, 4), path_oracle);
+        ctx.strided("paths_len4_slice", b * n.pow(4), ctx.pick(61, 2), move |i| paths_nth(i, pool, data, 4), path_oracle);
     }
     ctx.cases("int_literals", int_literals(), lit_oracle);
-    ctx.random("literals", ctx.pick(200_000, 1_000_000), || {
+    ctx.random("literals", ctx.pick(200_000, 5_000_000), || {
         prop_oneof![
             2 => any::<i64>().prop_map(|i| LitCase { text: i.to_string(), kind: "int".into() }),
             2 => (any::<bool>(), 0u64..1_000_000_000, 1usize..=6, 0u32..1_000_000).prop_map(|(neg, int, digits, frac)| {
@@ -222,5 +222,5 @@ pub fn run(ctx: &Ctx) {
             1 => proptest::sample::select(vec![("true", "true"), ("false", "false"), ("nil", "nil"), ("null", "nil")]).prop_map(|(t, k)| LitCase { text: t.into(), kind: k.into() }),
         ]
     }, lit_oracle);
-    ctx.random("random_walks", ctx.pick(400_000, 2_000_000), any_data_and_path, path_oracle);
+    ctx.random("random_walks", ctx.pick(400_000, 15_000_000), any_data_and_path, path_oracle);
 }
